@@ -81,6 +81,8 @@ def _mk_finding(pid, f, r):
 def run(pid, cfg, tier, seed, workdir, already_broken):
     t0 = time.time()
     os.environ["MODEL_SCOPE_CHECK"] = "1"
+    if cfg.get("stale3"):
+        os.environ["MODEL_VIEW_CHECK"] = "1"
     if cfg.get("acc_check"):
         os.environ["MODEL_ACC_CHECK"] = "1"
     if cfg.get("prot_check"):
@@ -179,6 +181,13 @@ def run(pid, cfg, tier, seed, workdir, already_broken):
         for sp in _scen_paths(["s24"]):
             for sd in range(1, 41 if tier == "quick" else 400):
                 results.append(corr.run_program(sp, sd, "stale", os.path.join(workdir, "stale-s24-%d" % sd), family="corpus"))
+    if cfg.get("stale3"):
+        # weak memory where the value IS trusted: the Relaxed revalidating read of Cache::load is answered with older values of
+        # the storage that the thread may still read (per-thread views with release/acquire transfer through every atomic
+        # location and join); the model follows with StaleC.step_stale3, its own views (StaleCView.v) confirm that every
+        # supplied value is within the theorem's hypothesis, the C16 oracle judges freshness against happens-before
+        rs4, _ = corr.run_batch(cfg.get("families", []), max(400, 3 * n), seed + 7, os.path.join(workdir, "stale3"), policies=("stale3",))
+        results += rs4
     s = corr.summarize(results)
     broken = []
     if s["diverged"]:
